@@ -112,11 +112,25 @@ func (txn *writeTxnState) mustIndexWriteTxn(meta TableMeta, indexPos int) tableI
 	return indexTxn
 }
 
-func (txn *writeTxnState) insert(meta TableMeta, guardRevision Revision, data any) (object, bool, <-chan struct{}, error) {
-	return txn.modify(meta, guardRevision, data, nil)
+// revisionGuard is the optional revision guard of CompareAndSwap and CompareAndDelete.
+// It is a separate flag rather than a zero revision so that a guard revision of 0
+// (which no object ever has) is still compared.
+type revisionGuard struct {
+	enabled  bool
+	revision Revision
 }
 
-func (txn *writeTxnState) modify(meta TableMeta, guardRevision Revision, newData any, merge func(old, new object) object) (object, bool, <-chan struct{}, error) {
+var noGuard = revisionGuard{}
+
+func guardWith(rev Revision) revisionGuard {
+	return revisionGuard{enabled: true, revision: rev}
+}
+
+func (txn *writeTxnState) insert(meta TableMeta, guard revisionGuard, data any) (object, bool, <-chan struct{}, error) {
+	return txn.modify(meta, guard, data, nil)
+}
+
+func (txn *writeTxnState) modify(meta TableMeta, guard revisionGuard, newData any, merge func(old, new object) object) (object, bool, <-chan struct{}, error) {
 	if txn == nil {
 		return object{}, false, nil, ErrTransactionClosed
 	}
@@ -164,7 +178,7 @@ func (txn *writeTxnState) modify(meta TableMeta, guardRevision Revision, newData
 	}
 
 	// For CompareAndSwap() validate against the given guard revision
-	if guardRevision > 0 {
+	if guard.enabled {
 		if !oldExists {
 			// CompareAndSwap requires the object to exist. Revert
 			// the insert.
@@ -172,7 +186,7 @@ func (txn *writeTxnState) modify(meta TableMeta, guardRevision Revision, newData
 			table.revision = oldRevision
 			return object{}, false, watch, ErrObjectNotFound
 		}
-		if oldObj.revision != guardRevision {
+		if oldObj.revision != guard.revision {
 			// Revert the change. We're assuming here that it's rarer for CompareAndSwap() to
 			// fail and thus we're optimizing to have only one lookup in the common case
 			// (versus doing a Get() and then Insert()).
@@ -234,7 +248,7 @@ func (txn *writeTxnState) addDeleteTracker(meta TableMeta, trackerName string, d
 	return nil
 }
 
-func (txn *writeTxnState) delete(meta TableMeta, guardRevision Revision, data any) (object, bool, error) {
+func (txn *writeTxnState) delete(meta TableMeta, guard revisionGuard, data any) (object, bool, error) {
 	if txn == nil {
 		return object{}, false, ErrTransactionClosed
 	}
@@ -258,8 +272,8 @@ func (txn *writeTxnState) delete(meta TableMeta, guardRevision Revision, data an
 
 	// For CompareAndDelete() validate against guard revision and if there's a mismatch,
 	// revert the change.
-	if guardRevision > 0 {
-		if obj.revision != guardRevision {
+	if guard.enabled {
+		if obj.revision != guard.revision {
 			idIndex.insert(idKey, obj)
 			return obj, true, ErrRevisionNotEqual
 		}
